@@ -16,7 +16,7 @@ from vf import common, irsem, exprgen
 PROPERTY = 'C13'
 RULE = ('(i) idempotence: expr_simp of a memo-free copy of expr_simp(e) must be structurally identical; (ii) for every tree, AC variants '
         '(all permutations of the operands of each + * ^ & | node up to 4 operands, seeded samples beyond, and every binary re-association) '
-        'must simplify to the identical tree and string; (iii) per-item digests of str(expr_simp(e)), Intel/AT&T renderings of a byte corpus, '
+        'must simplify to the identical tree and string, including near-twin operands (26 pairs of nodes differing in exactly one field: condition / either arm of a conditional, address / size / segment of a memory cell, slice bounds, one compose slot, operator / arity / one operand, identifier name) under each of the 5 operators; (iii) per-item digests of str(expr_simp(e)), Intel/AT&T renderings of a byte corpus, '
         'str of lifted semantics and dump_id()/dump_mem() after emulating instruction blocks, computed in child processes with different '
         'PYTHONHASHSEED, must be equal. A case = (law, canonical tree or item id); non-trivial = the tree contains an AC node with >=2 '
         'distinct operands (ii), the simplifier changed the tree (i), or the item produced output in every process (iii).')
@@ -145,6 +145,20 @@ def check_tree(sh, e, rng):
             key = ac_key(e, v)
             sh.violation('ac-order/%s/%s' % (kind.split('-')[0], key), 'expr_simp(%s) = %s but the AC variant %s simplifies to %s' % (e, s, v, sv),
                          {'tree': c, 'variant': cv, 'law': 'ac'})
+    # (ii') the same comparison WITHOUT copying: the variants share their operand objects with e (as expressions built by
+    # a client do); simplifying one of them must not change what the others simplify to
+    if vs:
+        import miasmx.expression.expression_helper as eh
+        try:
+            shared = [exprgen.canon(eh.expr_simp(e))] + [exprgen.canon(eh.expr_simp(v)) for kind, v in vs[:6]] + [exprgen.canon(eh.expr_simp(e))]
+        except Exception as ex:
+            shared = None
+            sh.violation('ac-order/shared-operands/raises:%s' % type(ex).__name__, 'simplifying variants of %s that share operand objects raised %r' % (e, ex), {'tree': c, 'law': 'ac-shared'})
+        if shared is not None:
+            sh.case(('ac-shared', c), nontrivial=True, cls='ac-shared:' + root_skeleton(e))
+            if any(x != cs for x in shared):
+                sh.violation('ac-order/shared-operands/%s' % root_skeleton(e), 'variants of %s that share their operand objects simplify to %d different results (fresh copies give %s)' % (
+                    e, len(set(shared)), s), {'tree': c, 'law': 'ac-shared'})
     if len(sh.samples) < 4 and vs:
         sh.sample({'tree': str(e), 'simplified': str(s), 'ac_variants_compared': len(vs), 'a_variant': str(vs[0][1])})
 
